@@ -459,6 +459,35 @@ func runC01(c *Ctx) {
 					}
 				})
 				if !buildsFrame {
+					// a helper that evaluates the default in an environment it is handed: judged where it is called
+					ep, isParam := call.Call.Args[2].(*ssa.Parameter)
+					if !isParam {
+						return
+					}
+					pi := -1
+					for i, fp := range fn.Params {
+						if fp == ep {
+							pi = i
+						}
+					}
+					for _, g := range c.srcFuncs(interpPkg) {
+						eachCall(g, func(cs ssa.CallInstruction) {
+							if staticFn(cs) != fn || pi < 0 || pi >= len(cs.Common().Args) {
+								return
+							}
+							nd++
+							a := cs.Common().Args[pi]
+							inFrame := derivesFrom(a, func(v ssa.Value) bool {
+								cl, ok := v.(*ssa.Call)
+								return ok && callName(cl) == interpPath+".NewChildEnvironment"
+							})
+							fromCaller := derivesFrom(a, func(v ssa.Value) bool {
+								p, ok := v.(*ssa.Parameter)
+								return ok && typeIs(derefType(p.Type()), interpPath, "Environment")
+							})
+							c.ob("C01-R8", fnKey(g)+"#parameter-default-evaluated-in-the-function-frame-"+itoa(nd), cs.Pos(), inFrame && !fromCaller, "a parameter's default expression is evaluated (through "+fn.Name()+") in the environment of the calling code instead of the function's frame: `= greeting + name` cannot see the earlier parameter or silently picks up a variable of the caller that happens to have the name")
+						})
+					}
 					return
 				}
 				nd++
